@@ -727,24 +727,17 @@ var numWsRe = regexp.MustCompile(`[0-9][ \t\r\n]`)
 
 var canonInt = regexp.MustCompile(`^-?(0|[1-9][0-9]*)$`)
 
-// v0HasList: the initial value holds a list with elements (visible or hidden): a pre-populated slice, array or struct
+// v0HasList: the initial value holds a slice with hidden elements (between len and cap)
 func v0HasList(v *dtygen.Val) bool {
 	if v == nil {
 		return false
 	}
-	if v.K == 'l' && len(v.L)+len(v.H) > 0 {
-		for _, e := range v.L {
-			if e.K == 'l' || v0HasList(e) {
-				return true
-			}
-		}
-		if len(v.H) > 0 {
+	if v.K == 'l' && len(v.H) > 0 {
+		return true
+	}
+	for _, e := range v.L {
+		if v0HasList(e) {
 			return true
-		}
-		for _, e := range v.L {
-			if e.K != 'z' {
-				return true
-			}
 		}
 	}
 	for _, e := range v.MV {
